@@ -10,6 +10,8 @@
 import PCV.Proofs.PST13
 import PCV.Proofs.Combinations
 import PCV.Proofs.CombInv
+import PCV.Proofs.CombCompleteSetup
+import PCV.Proofs.CombCompleteCount
 import PCV.Props.C15Grid
 import PCV.Props.Examples
 
@@ -55,6 +57,17 @@ theorem combinations_sorted_distinct (original : List Nat) (k : Nat) (outs : Lis
         ∀ x ∈ v, x ∈ original :=
   Comb.combinations_spec original k outs h
 
+/-- **The multiset iterator is complete, every input.** Whenever `Combinations::new(original, k)`
+does not panic, EVERY sorted length-`k` sub-multiset of the input (every length-`k` sublist of the
+sorted input) is among the outputs — each `next` moves to the lexicographic successor, the first
+output is the minimum, `None` is returned only at the maximum, and the `2^|original|` collection
+bound is never reached.  With `combinations_sorted_distinct`: the outputs are exactly the distinct
+sorted sub-multisets, each once. -/
+theorem combinations_complete (original : List Nat) (k : Nat) (outs : List (List Nat))
+    (h : combinations original k = .ok outs) :
+    ∀ w, List.Sublist w (sortNat original) → w.length = k → w ∈ outs :=
+  Comb.combinations_complete original k outs h
+
 /-- non-vacuity: the crate's own `complicated` unit test, with the input unsorted -/
 example : combinations [4, 2, 1, 3, 2] 3
     = .ok [[1, 2, 2], [1, 2, 3], [1, 2, 4], [1, 3, 4], [2, 2, 3], [2, 2, 4], [2, 3, 4]] := by decide
@@ -68,20 +81,27 @@ theorem specTerms_exact (n D : Nat) :
     ∀ t, t ∈ specTerms n D ↔ (Term.wf t = true ∧ Term.varsBelow n t = true ∧ Term.degree t ≤ D) :=
   ⟨nodup_specTerms n D, mem_specTerms n D⟩
 
-/-- **Completeness of the enumeration on the property's grid** (`num_vars, max_degree ∈ 1..6`,
-each point decided by kernel evaluation of the faithful `Combinations` model): `setup` succeeds,
-and the term list it builds has `C(n+D, D)` entries, no duplicates, and consists exactly of the
-monomials of total degree `≤ D` in `n` variables.
-
-`_partial`: the statement for all `(n, D)` is not proved — what is missing is the general theorem
-`setupTerms n D = .ok (specTerms n D)` about the iterator (for every `n, D ≥ 1`); everything else
-(`specTerms_exact`) is general. -/
-theorem setupTerms_complete_partial (n D : Nat) (hn1 : 1 ≤ n) (hn6 : n ≤ 6) (hD1 : 1 ≤ D)
-    (hD6 : D ≤ 6) :
+/-- **Completeness of the enumeration, ALL `num_vars ≥ 1`, `max_degree ≥ 1`.** `setup` succeeds,
+and the term list it builds has `C(n+D, D)` entries, no duplicates, consists exactly of the
+monomials of total degree `≤ D` in `n` variables, and is a permutation of the specification list.
+(Through `combinations_complete` for the iterator and the bijection multiset ↔ monomial; no
+restriction to the grid.) -/
+theorem setupTerms_complete (n D : Nat) (hn : 1 ≤ n) (hD : 1 ≤ D) :
     ∃ l, setupTerms n D = .ok l ∧ l.length = Nat.choose (n + D) D ∧ l.Nodup ∧
-      ∀ t, t ∈ l ↔ (Term.wf t = true ∧ Term.varsBelow n t = true ∧ Term.degree t ≤ D) := by
-  obtain ⟨h1, h2⟩ := C15Grid.grid n D hn1 hn6 hD1 hD6
-  exact ⟨specTerms n D, h1, h2, nodup_specTerms n D, mem_specTerms n D⟩
+      (∀ t, t ∈ l ↔ (Term.wf t = true ∧ Term.varsBelow n t = true ∧ Term.degree t ≤ D)) ∧
+      l.Perm (specTerms n D) := by
+  obtain ⟨l, hl, hnd, hmem⟩ := Comb.setupTerms_general n D hn hD
+  have hperm : l.Perm (specTerms n D) :=
+    (List.perm_ext_iff_of_nodup hnd (nodup_specTerms n D)).2
+      (fun t => by rw [hmem t, mem_specTerms n D t])
+  exact ⟨l, hl, by rw [hperm.length_eq, specTerms_length], hnd, hmem, hperm⟩
+
+/-- **The grid, including the order** (`num_vars, max_degree ∈ 1..6`, each point decided by kernel
+evaluation of the faithful `Combinations` model — independent evidence for the general theorem):
+the list `setup` builds IS the specification list, in the code's order. -/
+theorem setupTerms_grid_order (n D : Nat) (hn1 : 1 ≤ n) (hn6 : n ≤ 6) (hD1 : 1 ≤ D) (hD6 : D ≤ 6) :
+    setupTerms n D = .ok (specTerms n D) ∧ (specTerms n D).length = Nat.choose (n + D) D :=
+  C15Grid.grid n D hn1 hn6 hD1 hD6
 
 /-- non-vacuity / shape: the list for two variables, degree two, in the code's order -/
 example : setupTerms 2 2 = .ok [[(0, 1)], [(1, 1)], [(0, 2)], [(0, 1), (1, 1)], [(1, 2)], []] := by
@@ -276,24 +296,24 @@ example : PST.check (PST.wfVK (3 : K) 5 11 [2, 7] 2 2 2) [27] [10, 20] [3] ⟨[1
 example : PST.check (PST.wfVK (3 : K) 5 11 [2, 7] 2 2 2) [27] [10, 20] [4] ⟨[10, 66], some 93⟩ [13]
     = .ok false := by decide
 
-/-- **End to end on the grid.** For every `(n, D)` of the grid and every `s ≤ D`: `setup`'s term
-list exists; the key published for any trapdoor over that list trims to degree `s`; and then every
-polynomial `p` of degree `≤ s` in `n` variables is committed, opened at every point `z`, and the
-opening is accepted.  (`_partial`: beyond the grid the first conjunct needs the general
-enumeration theorem, see `setupTerms_complete_partial`; stated without hiding — the hiding case
-is `pst13_commit_total` + `pst13_open_total` + `pst13_complete`.) -/
-theorem pst13_grid_end_to_end_partial (n D s : Nat) (hn1 : 1 ≤ n) (hn6 : n ≤ 6) (hD1 : 1 ≤ D)
-    (hD6 : D ≤ 6) (hs : s ≤ D) (g γ h : F) (β z : List F) (hβ : n ≤ β.length) (hz : n ≤ z.length)
+/-- **End to end, ALL `n ≥ 1`, `D ≥ 1`, `s ≤ D`.** `setup`'s term list exists; the key published
+for any trapdoor over that list trims to degree `s`; and then every polynomial `p` of degree `≤ s`
+in `n` variables — arbitrary mixed monomials — is committed, opened at every point `z`, and the
+opening is accepted.  (Stated without hiding; the hiding case is `pst13_commit_total` +
+`pst13_open_total` + `pst13_complete` with the same covering key.) -/
+theorem pst13_end_to_end (n D s : Nat) (hn : 1 ≤ n) (hD : 1 ≤ D) (hs : s ≤ D) (g γ h : F)
+    (β z : List F) (hβ : n ≤ β.length) (hz : n ≤ z.length)
     (p : MVPoly F) (hp : polyWf p = true) (hpv : polyVarsBelow n p = true) (hd : degreeMV p ≤ s)
     (ξ : F) :
     ∃ l ck vk c π, setupTerms n D = .ok l ∧ PST.trim (PST.wfUP g γ h β l n D) s = .ok (ck, vk)
       ∧ PST.commit ck p none true [] = .ok (c, [], [])
       ∧ PST.open ck n n [p] z [[]] [ξ] = .ok π
       ∧ PST.check vk [c] z [evalMV p z] π [ξ] = .ok true := by
-  obtain ⟨hl, _⟩ := C15Grid.grid n D hn1 hn6 hD1 hD6
-  have h0 : ([] : Term) ∈ specTerms n D := (mem_specTerms n D []).2 ⟨rfl, rfl, Nat.zero_le _⟩
-  have htrim := PST.trim_wfUP g γ h β (specTerms n D) n D s hs h0
-  have hcov := trimmed_key_covers n D s hs
+  obtain ⟨l, hl, _, hmem⟩ := Comb.setupTerms_general n D hn hD
+  have h0 : ([] : Term) ∈ l := (hmem []).2 ⟨rfl, rfl, Nat.zero_le _⟩
+  have htrim := PST.trim_wfUP g γ h β l n D s hs h0
+  have hcov := PST.covered_mem_filter n s l (fun t ht =>
+    (hmem t).2 ⟨ht.1, ht.2.1, Nat.le_trans ht.2.2 hs⟩)
   obtain ⟨⟨c, r, rest⟩, hc⟩ := PST.commit_ok g γ β _ n s D hcov p hp hpv hd none []
     (fun b hb => by cases hb)
   obtain ⟨hr, hrest⟩ := PST.commit_none _ p true [] c r rest hc
@@ -302,7 +322,7 @@ theorem pst13_grid_end_to_end_partial (n D s : Nat) (hn1 : 1 ≤ n) (hn6 : n ≤
     (fun q hq => by simp only [List.mem_singleton] at hq; subst hq; exact ⟨hp, hpv, hd⟩)
     (fun r hr t ht => by simp only [List.mem_singleton] at hr; subst hr; simp [termsOf] at ht)
     (by simp) hz
-  refine ⟨specTerms n D, _, _, c, π, hl, htrim, hc, ho, ?_⟩
+  refine ⟨l, _, _, c, π, hl, htrim, hc, ho, ?_⟩
   exact pst13_complete g γ h β _ n s D (s + 1) p none true [] c [] [] z ξ [] π hp hpv hβ hz hc ho
 
 /-- non-vacuity of the end-to-end hypotheses: the example polynomial has degree `2 ≤ s = D = 2`
